@@ -94,7 +94,7 @@ def run(out, tier, seed):
                      'edit_global_at': rng.randrange(0, 8)})
     st3, sch3 = schedules(3, 4)
     mcs.append(st3)
-    pick = rng.sample(sch3, 300 if tier == 'quick' else len(sch3))
+    pick = rng.sample(sch3, 300 if tier == 'quick' else 10000)
     for k, s in enumerate(pick):
         jobs.append({'name': f'il3:{k}', 'chunks': (same_data_descs if k % 3 == 0 else chunk_descs)(random.Random(f'C13b:{seed}:{k % 12}'), 3, f'il3:{k}'), 'order': s, 'nstages': 4,
                      'edit_global_at': rng.randrange(0, 9) if k % 2 else None})
@@ -159,7 +159,7 @@ def run(out, tier, seed):
                        'the tracer runs without oracle taps in this check (taps use a module-level sink)']
     cov = {'states': sum(m['states'] for m in mcs), 'transitions': sum(m['transitions'] for m in mcs),
            'traces_validated_against_impl': 2 * npairs, 'evaluations': len(jobs) + len(tjobs), 'distinct_nontrivial': len(sch2) + len(pick) + len(tjobs),
-           'rule': 'stage granularity: ALL 252 interleavings of 2 chunks x 5 stages' + (' and ALL 34650 of 3 x 4' if tier != 'quick' else ' and 300 of the 34650 of 3 x 4')
+           'rule': 'stage granularity: ALL 252 interleavings of 2 chunks x 5 stages' + (' and 10000 of the 34650 of 3 x 4' if tier != 'quick' else ' and 300 of the 34650 of 3 x 4')
                    + f'; line granularity: {len(tjobs)} thread schedules ({switches} forced thread switches); distinct = distinct schedules',
            'mc': mcs, 'forced_switches': switches, 'inexact_skipped': inexact, 'exhaustive': False, 'checker_cmd': f'./check C13 --tier {tier}'}
     if switches < len(tjobs):
